@@ -7,6 +7,22 @@ V = "/verif"
 ALL = ["C%02d" % i for i in range(1, 21)]
 
 CHECKS = {
+ "C02": dict(level="exploration",
+   text="Bounded exhaustive enumeration on the real decoder: every observable (message, field) entry x every definition of a stated compat set x both byte orders x a boundary payload alphabet x record contexts, compared with an independent value denotation model (zero/sign extension, arrays, strings, times, coordinates) and the all-invalid rule for absent fields.",
+   note="Model = harness/props/model.go (written from the FIT base-type rules). Value alphabets are boundary sets, not all 2^32 payloads. Messages that no file container exposes are not observable and not covered.",
+   technique="bounded exhaustive input enumeration against a reference value model", ref="3 C02"),
+ "C04": dict(level="fault_enumeration",
+   text="Exhaustive fault enumeration: every burst of <=16 bits at every bit position of each base file (2^15 patterns per position) must be rejected by both Decode and CheckIntegrity; all 65536 stored header CRC values x header variants must get the same verdict from all header-checking APIs as the reference CRC gives.",
+   note="Base files are small (25-50 bytes) so that the burst space is complete; longer files in the thorough tier. Reference = bitwise CRC-16/ARC.",
+   technique="exhaustive fault (bit-burst) enumeration + exhaustive header CRC value enumeration across APIs", ref="3 C04"),
+ "C10": dict(level="model_checking",
+   text="Stateless exploration of the reader environment: the harness owns the io.Reader and enumerates its answers at every Read with deviation bounding (bound 2 from two default behaviours), plus complete cut-set enumeration of the minimal file and uniform chunkings across the internal buffer size; every schedule must consume exactly the frame and give the schedule-independent result; chained decoding equals per-member decoding.",
+   note="Menu of reader answers is finite (full/1/half/len-1/empty<=2/data+EOF). Bound 2 completed; all 2^24 cut sets in the thorough tier.",
+   technique="deviation-bounded exhaustive exploration of environment (Read-answer) schedules on the real decoder", ref="3 C10"),
+ "C11": dict(level="fault_enumeration",
+   text="Every cut offset and every read-fault offset (with/without data in the failing call) of every stream, through all six entry points and two read modes, against a frame model that says when an error is mandatory and which messages must be present in the partial File.",
+   note="Streams are built by the reference builder, which supplies the record boundaries for the partial-content oracle.",
+   technique="exhaustive crash-point (cut) and fault-offset enumeration against a frame model", ref="3 C11"),
  "C01": dict(level="exploration",
    text="Bounded exhaustive input-shape exploration of the six decoding entry points under recover and a hang watchdog: the full single-field definition space the property names (message x field number x base-type byte x size x byte order; quick tier restricts field numbers and unknown base types as stated in evidence), header space, record-header space with every cut, and the corpus with cuts. Totality is a safety property over inputs, so exhaustive enumeration of the structured families is the strongest decision available short of proof.",
    note="Assumes: readers that never make progress are out of scope; arbitrary unstructured garbage is not enumerated. Panics are caught with recover, hangs with a 30 s watchdog.",
